@@ -1,0 +1,115 @@
+//! Verification hooks, compiled only with the cargo feature `verif` (off by default).
+//!
+//! Add-only: these entry points call the existing private functions and copy the existing
+//! private state; they add no behaviour to any existing code path.
+
+use super::{Error, Handle};
+
+/// One index (KeyDir) entry: where the current value of `key` lives.
+#[derive(Debug, Clone, PartialEq, Eq)]
+pub struct VerifIndexEntry {
+    /// The key bytes.
+    pub key: Vec<u8>,
+    /// ID of the data file holding the entry.
+    pub fileid: u64,
+    /// Offset of the entry in that file.
+    pub pos: u64,
+    /// Length of the entry in bytes.
+    pub len: u64,
+    /// Timestamp recorded with the entry.
+    pub tstamp: i64,
+}
+
+/// Per-file accounting as kept by the store.
+#[derive(Debug, Clone, PartialEq, Eq)]
+pub struct VerifFileStats {
+    /// ID of the data file.
+    pub fileid: u64,
+    /// Number of live entries the store believes the file holds.
+    pub live_keys: u64,
+    /// Number of dead entries the store believes the file holds.
+    pub dead_keys: u64,
+    /// Number of bytes the store believes are occupied by dead entries.
+    pub dead_bytes: u64,
+}
+
+/// A plain copy of the store's private bookkeeping.
+#[derive(Debug, Clone, Default)]
+pub struct VerifDump {
+    /// The index, sorted by key.
+    pub index: Vec<VerifIndexEntry>,
+    /// The per-file counters, sorted by file ID.
+    pub stats: Vec<VerifFileStats>,
+    /// ID of the active data file.
+    pub active_fileid: u64,
+    /// Bytes written to the active data file so far.
+    pub written_bytes: u64,
+    /// Readers currently available in the pool.
+    pub readers_available: usize,
+    /// Capacity of the reader pool.
+    pub readers_capacity: usize,
+    /// Whether the store has been marked closed.
+    pub closed: bool,
+}
+
+impl Handle {
+    /// Run one merge pass now (what the background task does when a trigger is met).
+    pub fn verif_merge(&self) -> Result<(), Error> {
+        self.merge()
+    }
+
+    /// Force the active file to stable storage now (what the interval sync task does).
+    pub fn verif_sync(&self) -> Result<(), Error> {
+        self.sync()
+    }
+
+    /// Whether the merge trigger predicate currently holds.
+    pub fn verif_can_merge(&self) -> bool {
+        self.ctx.can_merge()
+    }
+
+    /// Readers currently in the pool, and the pool's capacity. Takes no lock.
+    pub fn verif_readers(&self) -> (usize, usize) {
+        (self.readers.len(), self.readers.capacity())
+    }
+
+    /// Copy the index, the per-file counters and the writer's position. Takes the writer lock
+    /// briefly, so the copy is consistent with respect to writes and merges.
+    pub fn verif_dump(&self) -> VerifDump {
+        let writer = self.writer.lock();
+        let mut index: Vec<VerifIndexEntry> = self
+            .ctx
+            .keydir
+            .iter()
+            .map(|e| VerifIndexEntry {
+                key: e.key().to_vec(),
+                fileid: e.fileid,
+                pos: e.pos,
+                len: e.len,
+                tstamp: e.tstamp,
+            })
+            .collect();
+        index.sort_by(|a, b| a.key.cmp(&b.key));
+        let mut stats: Vec<VerifFileStats> = self
+            .ctx
+            .stats
+            .iter()
+            .map(|e| VerifFileStats {
+                fileid: *e.key(),
+                live_keys: e.live_keys,
+                dead_keys: e.dead_keys,
+                dead_bytes: e.dead_bytes,
+            })
+            .collect();
+        stats.sort_by_key(|s| s.fileid);
+        VerifDump {
+            index,
+            stats,
+            active_fileid: writer.active_fileid,
+            written_bytes: writer.written_bytes,
+            readers_available: self.readers.len(),
+            readers_capacity: self.readers.capacity(),
+            closed: self.ctx.closed.load(),
+        }
+    }
+}
